@@ -20,6 +20,7 @@ RULE = (
     '; pass 6: 60 000 - 250 000 Gaussians integrated in one call'
     "; pass 8: log_normal_cdf on blocks whose entries all fall into one branch (value, derivative, argument untouched); Bernoulli log marginal decided in probability space"
     "; pass 9: multitask normals (interleaved / non-interleaved, dense / lazy, unequal variances) in the polynomial-exactness cells; Bernoulli marginal under skip_posterior_variances"
+    "; pass 10: Student-t likelihood with 1.6e4..1.6e6 degrees of freedom"
 )
 REQUIRED = ["poly_exact", "poly_degree_2n_not_exact", "dist_not_mutated", "lik_expected_log_prob", "lik_log_marginal", "bernoulli_marginal", "conditional_params", "log_normal_cdf", "log_normal_cdf_grad", "truncation_error_shrinks"]
 ASSUMPTIONS = [
